@@ -23,6 +23,8 @@ def run(job):
             with contextlib.redirect_stdout(buf), contextlib.redirect_stderr(buf):
                 r2 = Compiler.Compiler().Compile(job["src"], {"optimize": bool(job.get("optimize"))})
             res["front_end_ok"] = r2 is not None
+            if r2 is not None:
+                res["ir"] = irdump.module(r2.IRModule)
         except BaseException:
             res["front_end_ok"] = False
         return res
